@@ -29,7 +29,7 @@ class Contract:
 
     def __init__(self, name, target, setup, requires=None, ensures=None, raises=None, loops=None, callees=None,
                  canaries=(), dropped=(), decorators=None, generator=None, on_exit=None, note="", max_paths=400,
-                 class_models=None, timeout_ms=None, concretize=None):
+                 class_models=None, timeout_ms=None, concretize=None, hints=None):
         self.name, self.target, self.setup = name, target, setup
         self.requires = requires or (lambda ctx, st: [])
         self.ensures = ensures or (lambda ctx, st, ret: [])
@@ -45,6 +45,7 @@ class Contract:
         self.class_models = class_models or {}
         self.timeout_ms = timeout_ms
         self.concretize = concretize
+        self.hints = hints      # (ctx, st, skolem constants) -> terms to mention (guides hypothesis instantiation; adds no facts)
 
 
 class Result:
@@ -89,6 +90,8 @@ def run_contract(con, timeout_ms=10000, keep_models=True, verbose=False):
         for k, spec in con.loops.items():
             ip.loop_specs[k] = spec
         outcome = None
+        ctx.ip = ip
+        ctx.allowed_raises = set(con.raises)
         try:
             st = con.setup(ctx)
             ctx.assume(*con.requires(ctx, st))
@@ -132,6 +135,12 @@ def run_contract(con, timeout_ms=10000, keep_models=True, verbose=False):
         res.functions.update(ip.inlined)
         # discharge this path's obligations
         for ob in ctx.obligations:
+            if con.hints is not None and outcome != "unsupported":
+                try:
+                    for t in con.hints(ctx, st, list(ob.extra_terms)):
+                        ob.path.append(t == t)          # a tautology: only makes the term visible to instantiation
+                except Exception as e:
+                    res.undecided.append("hints failed: %r" % (e,))
             r = solve.solve_obligation(ctx, ob, timeout_ms)
             agg = res.obligations.setdefault(ob.oid, {"status": "unsat", "kind": ob.kind, "paths": 0, "time_s": 0.0,
                                                       "backends": {}, "note": ob.note, "instances": 0})
@@ -157,7 +166,13 @@ def vacuity_check(con, timeout_ms=5000):
     """requires must be satisfiable (with instantiated hypotheses at a few generic points)."""
     ctx = Ctx([], fname=con.name)
     core.CUR = ctx
-    st = con.setup(ctx)
+    ip = Interp(ctx, registry=dict(con.callees))
+    ip.class_models.update(con.class_models)
+    ctx.ip = ip
+    try:
+        st = con.setup(ctx)
+    except PathEnd:
+        return "unknown"
     ctx.assume(*con.requires(ctx, st))
     s = z3.Solver()
     s.set("timeout", timeout_ms)
